@@ -329,6 +329,15 @@ def r9_gone_caller_is_not_a_connection_error(ctx):
                 et = arms.get("1")
                 if et is not None and any(b.dominates(et, e) for e in errs):
                     bad = True
+            # ... nor is the outcome of the hand-over converted and propagated (`send(..).map_err(..)?`, `return send(..)...`)
+            from .common import forward_taint
+            t = forward_taint(b, {c.dest["l"]}) if c.dest is not None else set()
+            if 0 in t:
+                bad = True
+            for br in b.calls_to(r"Try.*::branch$"):
+                q = op_place(br.args[0])
+                if q is not None and q["l"] in t:
+                    bad = True
             R.check(not bad, "C03.R9", "%s:send#%d" % (short(b.path).split("::")[-1], sorted(x.bb for x in b.calls_to(r"oneshot::Sender::<.*>::send$")).index(c.bb)), "a caller that went away does not turn into an InvalidRequestId error", "%s returns an InvalidRequestId error when the caller's oneshot is closed: a late reply to an abandoned call stops the read task, and every other pending call completes with that error instead of its own response" % short(b.path), where(c))
     R.floor("C03.R9", n, 5, "oneshot completions in the response path")
 
@@ -367,7 +376,14 @@ def rkeys_manager_keys_not_derived(ctx):
     manager_keys_not_derived(ctx, "C03.KEYS")
 
 
-RULES = [r1_id_and_wire_agree, r2_key_discipline, r3_insert_before_send, r4_completion_consumes, r5_allocator, r6_batch_slots, r7_ids_not_ordered, r8_http_client_id_check, r9_gone_caller_is_not_a_connection_error, rarr_every_element, rcancel_receive_is_cancel_safe, rkeys_manager_keys_not_derived] + BORROWED
+
+def ratomic_ids_reserved_atomically(ctx):
+    """two calls in flight never share a request id (ids are reserved with one atomic fetch_add)"""
+    from .common import request_ids_reserved_atomically
+    request_ids_reserved_atomically(ctx, "C03.ATOMIC")
+
+
+RULES = [ratomic_ids_reserved_atomically, r1_id_and_wire_agree, r2_key_discipline, r3_insert_before_send, r4_completion_consumes, r5_allocator, r6_batch_slots, r7_ids_not_ordered, r8_http_client_id_check, r9_gone_caller_is_not_a_connection_error, rarr_every_element, rcancel_receive_is_cancel_safe, rkeys_manager_keys_not_derived] + BORROWED
 
 LEVEL_TEXT = (
     "Structural necessary conditions of response demultiplexing decided from the type-checked program: the recorded id "
